@@ -80,6 +80,15 @@ func genWeights(r *vh.Rand) []int {
 	if mode == 1 {
 		ws[r.Intn(n)] = r.Range(2, 40)
 	}
+	// rare: very large weights around 2^31 and 10^9 (weight*100 and the credits must not be narrowed to 32 bits)
+	if r.Chance(1, 25) {
+		big := []int{1<<31 - 1, 1 << 31, 1<<31 + 1, 1000000000, 21474837, 21474836, 1 << 20}
+		for i := range ws {
+			if r.Chance(1, 2) {
+				ws[i] = big[r.Intn(len(big))]
+			}
+		}
+	}
 	// sometimes a member that is ineligible from the start (weight 0 / negative)
 	if n >= 2 && r.Chance(1, 8) {
 		ws[r.Intn(n)] = -r.Intn(3)
@@ -235,8 +244,13 @@ func gen(r *vh.Rand) string {
 	}
 	nextID := len(ws)
 	head := "init "
-	if r.Chance(1, 6) {
+	switch r.Intn(8) {
+	case 0:
 		head = "ginit "
+	case 1:
+		if sumPos(ws) > 0 {
+			head = "tinit " // through BalTable: conf files, real loaders, BalTableReload
+		}
 	}
 	ops := []string{head + joinInts(ws)}
 	// availability flips BEFORE the first call: the state of the remaining members is still canonical
@@ -260,6 +274,43 @@ func gen(r *vh.Rand) string {
 	W := elig()
 	// steady phase: a bit more than 1..3 periods
 	ops = append(ops, balOps(r, r.Range(1, 3)*W+r.Range(0, 7))...)
+	// availability flips EXACTLY at a period boundary (the state is the initial state again: windows must stay exact)
+	if len(ws) >= 2 && W > 0 && W <= 400 && r.Chance(1, 5) {
+		ops = ops[:len(ops)-0]
+		// replace the steady phase by whole periods
+		for len(ops) > 0 && strings.HasPrefix(ops[len(ops)-1], "bal ") {
+			ops = ops[:len(ops)-1]
+		}
+		ops = append(ops, balOps(r, r.Range(1, 2)*W)...)
+		for j := r.Range(1, 2); j > 0; j-- {
+			i := r.Intn(len(ws))
+			avail[i] = !avail[i]
+			ops = append(ops, fmt.Sprintf("av %d %d", ids[i], b2i(avail[i])))
+			if w2 := elig(); w2 > 0 && w2 <= 400 {
+				ops = append(ops, balOps(r, r.Range(1, 2)*w2)...)
+			} else {
+				ops = append(ops, "bal 3")
+				break
+			}
+		}
+		ops = append(ops, balOps(r, elig()+r.Range(1, 5))...)
+	}
+	// BalTable histories: a reload the loaders must REJECT (no backend of weight > 0, or an empty sub-cluster) in the
+	// middle of a steady run: nothing may change, the windows across it stay exact
+	if head == "tinit " && r.Chance(1, 2) {
+		p := make([]string, 0, len(ws))
+		for i := range ws {
+			if r.Chance(3, 4) {
+				p = append(p, fmt.Sprintf("%d:%d", ids[i], -r.Intn(2)))
+			}
+		}
+		if len(p) == 0 {
+			ops = append(ops, "upd -")
+		} else {
+			ops = append(ops, "upd "+strings.Join(p, ","))
+		}
+		ops = append(ops, balOps(r, elig()+r.Range(1, 9))...)
+	}
 	// 40%: configuration / availability changes followed by more calls
 	if r.Chance(2, 5) {
 		rounds := r.Range(1, 3)
@@ -276,11 +327,13 @@ func gen(r *vh.Rand) string {
 					ids = append(ids[:i:i], ids[i+1:]...)
 					avail = append(avail[:i:i], avail[i+1:]...)
 				}
-			case 3: // add ONE member (Update appends new members in Go map order)
-				ws = append(ws, r.Range(1, 40))
-				ids = append(ids, nextID)
-				avail = append(avail, true)
-				nextID++
+			case 3: // add 1..3 members (Update appends new members in Go map order: the driver takes their order from the result)
+				for j := r.Range(1, 3); j > 0; j-- {
+					ws = append(ws, r.Range(1, 40))
+					ids = append(ids, nextID)
+					avail = append(avail, true)
+					nextID++
+				}
 			default: // availability flip
 				i := r.Intn(len(ws))
 				avail[i] = !avail[i]
